@@ -121,6 +121,9 @@ class Built:
         cls = U.TYPES[spec.types[i]]
         copies = [self._build(j, fresh=True) for j in spec.deps[i]] if spec.place[i] == 'twice' else None
         kw = place_deps(spec.place[i], deps, copies)
+        if getattr(cls, 'EXTRA_FIELDS', ()) and deps:
+            # a derived type keeps its dependencies in the parameter it added itself
+            kw = {cls.EXTRA_FIELDS[0]: kw['coll'] if set(kw) == {'coll'} else list(deps)}
         if STR_SALT and 'd3' not in kw:
             # a string parameter makes hash(task) - and with it every set/dict order inside
             # labtech - depend on PYTHONHASHSEED (hash-seed slices run in fresh interpreters)
